@@ -194,7 +194,7 @@ def check_prune(trie, db, model, info, ref):
     return False
 
 
-def run_history(case, checks, info, state=None, ops=None, final_sweep=True):
+def run_history(case, checks, info, state=None, ops=None, final_sweep=True, sparse=None):
     """
     case: {"prune": bool, "ops": [...]}.  Returns a dict of facts used by the callers
     to decide non-triviality.  With state=(trie, db, model) the history `ops` continues
@@ -216,7 +216,8 @@ def run_history(case, checks, info, state=None, ops=None, final_sweep=True):
     # sparse mode: no automatic look-ups after each step (they would refresh or consume any
     # per-object state of the trie) - only the look-ups that are part of the generated
     # history, and one full sweep at the very end
-    sparse = bool(case.get("sparse")) if case is not None else False
+    if sparse is None:
+        sparse = bool(case.get("sparse")) if case is not None else False
     info.label("sparse-lookups", sparse)
     prev = {}
     roots = [(bytes(trie.root_hash), dict(model))]
